@@ -2,6 +2,7 @@
 import copy, json, math, os, pickle, shutil, struct, sys, traceback
 from harness.lib import tr as trlib
 from harness.lib.common import REPO, WORK
+from harness.translators import json_fields
 
 META = dict(
     id='C05',
@@ -12,6 +13,7 @@ META = dict(
                'differential correspondence of each model against the implementation on generated values and histories; '
                'direct oracle (pg.eq / type / pg.hash / value specs / tree well-formedness / last-write-wins dictionary) on both file systems, pickle and deepcopy'),
     design_ref='DESIGN.md §5 C05',
+    instance_obligations=['generated_tables_ok (Proofs/JsonFieldsInstance.v: table_ok Gen.JsonFields.classes = true by vm_compute, re-checked on the keyword tables regenerated from the current value_specs.py / class_schema.py / key_specs.py)'],
     level_text=('Theorems: from_json (to_json v) = v and the string form of_str (to_str v) = v for every value outside the reserved encodings (each reservation has a refuted witness), '
                 'to_json is injective there; on the in-memory file system, for every history of save / write / append / rm / mkdirs / line-sequence operations over arbitrary '
                 'path strings, reading a path returns exactly the text of the last successful write to a path with the same components (refinement to a last-writer map), '
@@ -971,6 +973,28 @@ def special_objects():
   add('spec', 'Callable', lambda: T.Callable([T.Int()], returns=T.Str()))
   add('spec', 'Functor', lambda: T.Functor([T.Int()]))
   add('spec', 'frozen', lambda: T.Int().freeze(1))
+  # every class of the regenerated keyword tables with each optional argument at its default (what exclude_default drops)
+  add('spec', 'minimal-Bool', lambda: T.Bool())
+  add('spec', 'minimal-Str', lambda: T.Str())
+  add('spec', 'minimal-Float', lambda: T.Float())
+  add('spec', 'minimal-List', lambda: T.List(T.Int()))
+  add('spec', 'minimal-Tuple-variable', lambda: T.Tuple(T.Int()))
+  add('spec', 'minimal-Object', lambda: T.Object(CB))
+  add('spec', 'minimal-Callable', lambda: T.Callable())
+  add('spec', 'minimal-Functor', lambda: T.Functor())
+  add('spec', 'minimal-Type', lambda: T.Type(CB))
+  add('spec', 'minimal-Union', lambda: T.Union([T.Int(), T.Str()]))
+  add('spec', 'minimal-Any', lambda: T.Any())
+  add('spec', 'Dict-empty-schema', lambda: T.Dict([]))
+  add('spec', 'Callable-full', lambda: T.Callable([T.Int(), T.Str()], kw=[('x', T.Int())], returns=T.Bool()).noneable())
+  add('keyspec', 'ConstStrKey', lambda: p.typing.ConstStrKey('a'))
+  add('keyspec', 'StrKey', lambda: T.StrKey())
+  add('keyspec', 'StrKey-regex', lambda: T.StrKey('a.*'))
+  add('keyspec', 'ListKey', lambda: T.ListKey())
+  add('keyspec', 'ListKey-range', lambda: T.ListKey(1, 5))
+  add('keyspec', 'TupleKey', lambda: T.TupleKey())
+  add('keyspec', 'TupleKey-index', lambda: T.TupleKey(2))
+  add('schema', 'field-minimal', lambda: T.Field('k', T.Int()))
   add('schema', 'class-schema', lambda: CT.__schema__)
   add('schema', 'field', lambda: T.Field('k', T.Int(), 'doc', {'m': 1}))
   add('schema', 'empty-schema', lambda: CB.__schema__)
@@ -1105,7 +1129,11 @@ def special_oracle(kind, name, make):
   return hits
 
 # ------------------------------------------------------------------------------------------------
+GENERATED = {'Gen/JsonFields.v': json_fields.translate}
+
 def run(ctx):
+  info = ctx.regen('Gen/JsonFields.v', json_fields.translate)
+  ctx.extra['keyword_tables'] = dict(classes=info['classes']) if info else None
   ctx.build()
   p = pg()
   r = ctx.rng
